@@ -57,12 +57,15 @@ func (cl Serializer) DecodeDnsResponseWithParams(msg *dns.Msg, downstream enc.En
 	data := util.UnwrapDnsResponse(msg, cl.Domain)
 	for _, c := range Commands {
 		if c.IsOfType(data) {
+			if c.NewResponse == nil {
+				return nil, errors.Errorf("Invalid response from server. Command %v has no response", c)
+			}
 			req := c.NewResponse()
 			err := req.Decode(downstream, data)
 			return req, err
 		}
 	}
-	return nil, errors.Errorf("Invalid response from server. Don't know how to handle command type: %v", string(data[0]))
+	return nil, errors.Errorf("Invalid response from server. Don't know how to handle command type: %q", data)
 }
 
 // EncodeDnsRequest will take a Request and encode it as a DNS message
@@ -152,6 +155,9 @@ func (cl Serializer) EncodeDnsRequestWithParams(req Request, qt dnsmessage.Type,
 func (cl Serializer) DecodeDnsRequest(request []byte) (Request, error) {
 	for _, c := range Commands {
 		if c.IsOfType(request) {
+			if c.NewRequest == nil {
+				return nil, errors.Errorf("Invalid request. Command %v cannot be requested", c)
+			}
 			req := c.NewRequest()
 			err := req.Decode(cl.Upstream.Encoder, request)
 			if err != nil {
@@ -160,5 +166,5 @@ func (cl Serializer) DecodeDnsRequest(request []byte) (Request, error) {
 			return req, err
 		}
 	}
-	return nil, errors.Errorf("Invalid request. Don't know how to handle command type: %v", string(request[0]))
+	return nil, errors.Errorf("Invalid request. Don't know how to handle command type: %q", request)
 }
